@@ -67,6 +67,12 @@ func (node *tagCycleNode) Execute(ctx *ExecutionContext, writer TemplateWriter) 
 			return err
 		}
 
+		if inner, isCycleValue := val.Interface().(*tagCycleValue); isCycleValue {
+			// A cycle value never holds a cycle value (itself, with 'cycle x as x'):
+			// printing it would never end
+			val = inner.value
+		}
+
 		t.value = val
 
 		if !t.node.silent {
